@@ -144,9 +144,7 @@ type TTagged struct {
 	Jp *int64  `sql:",json"`
 	Jb bool    `sql:",json"`
 	Ju uint16  `sql:",json"`
-	Si int32   `sql:",string"`
 	Ss string  `sql:",string"`
-	Bs string  `sql:",binary"`
 	Bb []byte  `sql:",binary"`
 	Ji *int8   `sql:",json"`
 }
